@@ -18,6 +18,8 @@ const pkgResv = "pkg/binder/binding/resourcereservation"
 const pkgGroupMutex = "pkg/binder/binding/resourcereservation/group_mutex"
 
 func runC17(c *Ctx) {
+	borrow(c, "O6", "C11", "O3", "SyncForNode(SelectedNode)", "the reservation pod created for a failed bind is re-evaluated only if the sync runs for the selected node")
+
 	p, fx := c.P, c.Fx
 	lock := c.Anchor("O1", pkgGroupMutex, "GroupMutex", "LockMutexForGroup")
 	unlock := c.Anchor("O1", pkgGroupMutex, "GroupMutex", "ReleaseMutex")
